@@ -150,7 +150,27 @@ def make_queries(o, rnd, heavy):
 def build_lens(rnd, which, unsorted=False):
     from optiland.coatings import SimpleCoating
     from optiland.rays import PolarizationState
-    if which == 8:
+    if which == 7 and rnd.random() < 0.5:
+        # a strongly aspheric singlet with the stop on the asphere (coefficients of either sign): the
+        # iterative intersection needs several steps for oblique rays, and the chief / axial ray
+        # lands on the vertex, where it needs none
+        from optiland.optic import Optic
+        from optiland.materials import IdealMaterial
+        sgn = rnd.choice([1.0, -1.0])
+        o = Optic()
+        o.add_surface(index=0, thickness=math.inf)
+        o.add_surface(index=1, radius=rnd.choice([20.0, 30.0]), thickness=7.0, is_stop=True, surface_type="even_asphere",
+                      conic=0.0, material=IdealMaterial(n=rnd.uniform(1.5, 1.7)),
+                      coefficients=[sgn * rnd.uniform(1.5e-4, 3e-4), sgn * rnd.uniform(2e-6, 6e-6)])
+        o.add_surface(index=2, thickness=rnd.uniform(18.0, 25.0))
+        o.add_surface(index=3)
+        o.set_aperture("EPD", 10.0)
+        o.set_field_type("angle")
+        o.add_field(y=0.0)
+        o.add_field(y=10.0)
+        o.add_wavelength(0.55, is_primary=True)
+        meta = {"lens": "strong asphere on the stop (sign %+d)" % sgn, "iterative": True}
+    elif which == 8:
         # Newtonian paraboloid (conic exactly -1): axial rays make the quadratic term of the
         # intersection equation vanish - a separate branch of the closed-form solver
         from optiland.optic import Optic
